@@ -1,4 +1,5 @@
 //! Reference model for the dnssector verification harness. No dependency on dnssector.
 pub mod gen;
 pub mod msg;
+pub mod ops;
 pub mod wire;
